@@ -24,6 +24,7 @@ def run(ctx):
         jobs += wmmlib.bounded_jobs(exe, ["u8"], [8, 64], [5, 50], [0, 1], 5, per_proc=400)
     for rr in vf.run_many(jobs):
         ctx.absorb(rr, "h_queues(bounded)")
+    wmmlib.tsan_guard(ctx, "bounded")
     ctx.distinct.update(range(int(ctx.stats.get("complete_executions", 0))))
     ctx.assumptions.append("view-based RC11-style semantics without promises: complete for this code because no relaxed load of a location written by another thread feeds a store (no load-buffering shapes); seq_cst treated as acq/rel (only used in constructors/destructor, never concurrently)")
     ctx.assumptions.append("a drained queue on which a fitting record is refused is decided under C09 (kind stall-on-empty-queue), not here")
